@@ -402,6 +402,11 @@ func (e *exec) call(s *scope, c *ast.CallExpr) []int {
 				return []int{r0, r1}
 			case "Mul64":
 				t := e.add(node{Op: "mul64", Args: a, W: 64, Pos: e.pos(c)})
+				for _, x := range a { // a multiplier that is computed (a quotient digit, a carry-laden limb): special values
+					if o := e.prog.Nodes[x].Op; o != "const" && o != "input" {
+						e.prog.Sites = append(e.prog.Sites, site{Kind: "mulop", A: []int{x}, Pos: e.pos(c)})
+					}
+				}
 				return []int{e.add(node{Op: "proj", Args: []int{t}, Idx: 0, W: 64}), e.add(node{Op: "proj", Args: []int{t}, Idx: 1, W: 64})}
 			}
 			fail("bits.%s", sel.Sel.Name)
